@@ -4,6 +4,7 @@
 package main
 
 import (
+	"encoding/hex"
 	"encoding/json"
 	"flag"
 	"fmt"
@@ -764,6 +765,24 @@ func doReplay(w *casefile.Writer, path string) {
 		in = rp.Replay.Input
 	}
 	q, _ := in["query"].(string)
+	if d, ok := in["depth"].(float64); ok {
+		// the deep-nesting finding: re-run the child-process probe
+		deepProbe(w, int(d))
+		return
+	}
+	if hx, ok := in["query_hex"].(string); ok {
+		if b, err := hex.DecodeString(hx); err == nil {
+			q = string(b) // exact bytes (invalid UTF-8 does not survive JSON)
+		}
+	}
+	{
+		res := guarded(func() error { _, err := parser.ParseAggregationFilter(q); return err })
+		w.Evals(1)
+		fmt.Printf("replay ParseAggregationFilter query=%q: panic=%v hung=%v err=%v\n", q, res.panicked, res.hung, res.isErr)
+		if res.panicked != nil || res.hung {
+			w.Violate(rp.Fingerprint, fmt.Sprintf("replayed: panic=%v hung=%v", res.panicked, res.hung), map[string]any{"query": q, "target": "ParseAggregationFilter"})
+		}
+	}
 	if lr, p, hung := realLex(q); true {
 		fmt.Printf("replay lexer query=%q: panic=%v hung=%v ended=%v tokens=%v\n", q, p, hung, lr.ended, ltokJSON(lr.toks))
 		if p != nil || hung || !lr.ended {
